@@ -93,9 +93,26 @@ type Hist struct {
 	CoalesceMs int
 	CancelMs   int
 	CancelN    int
-	PushEvents bool // the node pushes EVENT frames (stream -1) on the pool connection while requests are outstanding
-	IdleMs     int  // stay idle this long before quiescence (> 1000: the heartbeat's OPTIONS exec appears in the logs)
-	Handshake  int  // 0: normal; 1: node never answers STARTUP; 2: node closes during the handshake; 3: cut mid-header of SUPPORTED
+	// the temporary-read-error family: the victim's response body is interrupted after CutClass (0: one
+	// byte, 1: the middle, 2: all but the last byte) by TempErrN (1..4) temporary read errors, then goes on;
+	// the responses of the other requests follow it on the wire. Everybody must get its own answer.
+	TempErr  bool
+	TempErrN int
+	CutClass int
+	Victim   int
+	// gocql.TimeoutLimit for this history (set by RunAll around the group; the node stays silent)
+	TimeoutLimit int
+	WatchdogMs   int  // caller / close watchdog (default 20000)
+	PushEvents   bool // the node pushes EVENT frames (stream -1) on the pool connection while requests are outstanding
+	IdleMs       int  // stay idle this long before quiescence (> 1000: the heartbeat's OPTIONS exec appears in the logs)
+	Handshake    int  // 0: normal; 1: node never answers STARTUP; 2: node closes during the handshake; 3: cut mid-header of SUPPORTED
+}
+
+func (h *Hist) wd() time.Duration {
+	if h.WatchdogMs > 0 {
+		return time.Duration(h.WatchdogMs) * time.Millisecond
+	}
+	return 20 * time.Second
 }
 
 func (h *Hist) String() string {
@@ -218,11 +235,24 @@ type run struct {
 	heldSeq  []string                 // tokens in arrival order (FHeld)
 	lateSeq  []string                 // tokens in arrival order (FLate)
 	fates    map[string]Fate
+	fd       *faultDialer
+	silent   bool // the node no longer answers anything on the pool connection (TimeoutLimit histories)
 	heldDone bool // the held answers have been released: a held request arriving later is answered at once
 	lateDone bool // likewise for the late answers
 }
 
 func (r *run) handler(c *node.ServerConn, req *node.Request) {
+	r.mu.Lock()
+	silent := r.silent
+	r.mu.Unlock()
+	if silent {
+		r.mu.Lock()
+		if req.Query != nil && strings.HasPrefix(req.Query.Statement, stmtPrefix+"tok_") {
+			r.received[strings.TrimPrefix(req.Query.Statement, stmtPrefix)] = req
+		}
+		r.mu.Unlock()
+		return
+	}
 	if req.Query == nil || !strings.HasPrefix(req.Query.Statement, stmtPrefix+"tok_") {
 		if r.h.Handshake == 1 && req.Startup != nil {
 			return // never answered
@@ -407,6 +437,10 @@ func Run(h *Hist) *Report {
 	d := n.Dialer()
 	d.DisableCoalesce = !h.Coalesce
 	cfg.HostDialer = d
+	if h.TempErr {
+		r.fd = &faultDialer{inner: d}
+		cfg.HostDialer = r.fd
+	}
 	cfg.ProtoVersion = h.Proto
 	cfg.Timeout = time.Duration(h.TimeoutMs) * time.Millisecond
 	cfg.ConnectTimeout = 3 * time.Second
@@ -478,7 +512,7 @@ func Run(h *Hist) *Report {
 		}
 		sessionClosed = true
 		if !watchdog(20*time.Second, s.Close) {
-			viol("close-hang", "", "Session.Close did not return within 20s\n%s", goroutineDump())
+			viol("close-hang", "", "Session.Close did not return within its watchdog\n%s", goroutineDump())
 		}
 	}
 	defer closeSession()
@@ -505,11 +539,15 @@ func Run(h *Hist) *Report {
 		r.stallScenario(s, pool, rep, viol)
 	} else if h.CoalCancel {
 		r.coalCancelScenario(s, pool, rep, viol)
+	} else if h.TempErr {
+		r.tempErrScenario(s, pool, rep, viol)
+	} else if h.TimeoutLimit > 0 {
+		r.timeoutLimitScenario(s, pool, rep, viol)
 	} else {
 		r.waves(s, pool, poolConn, rep, viol, closeSession)
 	}
 
-	if h.IdleMs > 0 && !sessionClosed {
+	if h.IdleMs > 0 && !sessionClosed && h.TimeoutLimit == 0 {
 		time.Sleep(time.Duration(h.IdleMs) * time.Millisecond)
 	}
 
